@@ -297,6 +297,8 @@ pub struct World<A: App> {
     pub blackhole_default: bool,
     /// Additional addresses that reach a node (a migrated client is reachable at its new address)
     pub aliases: Vec<(SocketAddr, usize)>,
+    /// aliases stop working at this virtual time (an old NAT mapping that lingers for a while)
+    pub alias_expiry: Option<Duration>,
     /// Nodes that no longer receive anything (frozen; the puppet speaks in their place)
     pub deaf: Vec<bool>,
     /// Take a probe snapshot before every poll_transmit (C12/C13)
@@ -357,6 +359,7 @@ impl<A: App> World<A> {
             blackhole: Vec::new(),
             blackhole_default: false,
             aliases: Vec::new(),
+            alias_expiry: None,
             deaf: Vec::new(),
             probe_pre: false,
             hold_drained: false,
@@ -428,7 +431,12 @@ impl<A: App> World<A> {
     }
 
     fn node_of(&self, a: SocketAddr) -> Option<usize> {
-        self.nodes.iter().position(|n| n.addr == a).or_else(|| self.aliases.iter().find(|(x, _)| *x == a).map(|(_, n)| *n))
+        self.nodes.iter().position(|n| n.addr == a).or_else(|| {
+            if self.alias_expiry.map_or(false, |e| self.t > e) {
+                return None;
+            }
+            self.aliases.iter().find(|(x, _)| *x == a).map(|(_, n)| *n)
+        })
     }
 
     fn fate_of(&self, idx: u64) -> Fate {
